@@ -172,10 +172,10 @@ def run(ctx):
         if n == 0:
             ctx.ok("immutable", "-", "Order.%s has no writer outside the constructors (0 field writes in 3 crates)" % fname)
     # constructors: same-named parameter -> field
-    ctors = [f for f in ctx.prog.find(crate="bourse_book", adt="Order") if "-> bourse_book::types::Order" in f.sig and f.impl_trait is None]
-    ctx.check(len(ctors) >= 4, "constructors", "count", "-", "%d Order constructors" % len(ctors))
+    ctors = [f for f in ctx.prog.find(crate="bourse_book", adt="Order") if "-> bourse_book::types::Order" in f.sig and f.impl_trait is None and f.pub]
+    ctx.check(len(ctors) >= 4, "constructors", "count", "-", "%d public Order constructors" % len(ctors))
     for f in ctors:
-        q = m.q(f)
+        q = m.qi(f)   # a shared private initialiser is spliced in
         r = q.ret()
         if r[0] != "agg" or not r[2].endswith("Order::Order"):
             ctx.bad("constructors", "shape|" + f.short(), ctx.loc(f), "constructor does not return a plain Order literal")
